@@ -67,11 +67,14 @@ func TestC05_UniqueStoreNeverHoldsDuplicates(t *testing.T) {
 		} else if _, err := seedStore(e, stores, [][]int{seed}); err != nil {
 			t.Fatalf("HARNESS-ERROR %v", err)
 		}
-		res, s := e.RunConcurrent(stores, progs, schedule, txh.ConcOpts{MaxTime: 10 * time.Second, Budget: 90 * time.Second})
+		res, s := e.RunConcurrent(stores, progs, schedule, txh.ConcOpts{GateCommits: knownSnapshot, MaxTime: 3 * time.Second, Budget: 60 * time.Second})
 		desc := fmt.Sprintf("slot=%d %s seed=%v %s schedule=%s", slot, txh.PlacementNames[placement], seed, renderProgs(progs), renderSched(schedule))
 		if s.TimedOut {
 			rec.Discard()
 			return
+		}
+		if s.Gated > 0 {
+			rec.Exclude("a commit was held back until no other transaction was in the middle of its operations (known finding: inconsistent snapshot while others commit)")
 		}
 		d, err := e.Dump(stores, sop.ForReading)
 		if err != nil {
